@@ -3,5 +3,6 @@ CONSTANTS
   MaxL = 10
   MaxB = 5
   MaxH = 12
-INVARIANTS ChunkContent ChunkCount HintOK Coverage
+  MaxJ = 3
+INVARIANTS ChunkContent ChunkCount HintOK Coverage NthOK
 CHECK_DEADLOCK FALSE
